@@ -168,7 +168,9 @@ def run(ck, F, tier):
         names = [(x.get("def"), [f["name"] for f in x["fields"]]) for x in rngs]
         # s![.., n..] = (RangeFull, RangeFrom { start: n })
         rf = [x for x in rngs if x.get("def") == "std::ops::RangeFrom"]
-        ok4b = len(rf) == 1 and local_name(rf[0]["fields"][0]["e"]) is not None and local_name(rf[0]["fields"][0]["e"]).startswith("n#") \
+        rows_locals = {st["pat"]["name"] for st in fb.value.get("stmts", []) if st.get("k") == "let" and st["pat"].get("k") == "bind"
+                       and (callee(strip(st.get("init", {}))) or "").endswith("SparseMatrix::num_rows")}
+        ok4b = len(rf) == 1 and local_name(rf[0]["fields"][0]["e"]) in rows_locals \
             and any(x.get("def") == "std::ops::RangeFull" for x in walk(sl[0]["node"]) if x.get("k") in ("struct", "path"))
     ck.inst("S4", "from_h:generator-slice", ok4b, sl[0]["sp"] if sl else fb.span, "generator = reduced array columns rows.. (s![.., n..]) of all rows")
     dots = [e for e in te.events if e.callee.endswith("::dot")]
